@@ -1,13 +1,16 @@
 -- Root of the `FlatccModel` library: every model, proof and property file.
+import FlatccModel.Find
 import FlatccModel.Generated.Consts
-import FlatccModel.Util
 import FlatccModel.Num
 import FlatccModel.NumProofs
-import FlatccModel.Sort
-import FlatccModel.Find
-import FlatccModel.ScanSwap
-import FlatccModel.RefmapCore
+import FlatccModel.Reader
 import FlatccModel.Refmap
+import FlatccModel.RefmapCore
+import FlatccModel.ScanSwap
+import FlatccModel.Sort
+import FlatccModel.Util
+import FlatccModel.Verifier
+import FlatccModel.Props.C01
 import FlatccModel.Props.C16
 import FlatccModel.Props.C18
 import FlatccModel.Props.C19
